@@ -429,7 +429,7 @@ func TestCheck(t *testing.T) {
 
 	// helper texts: valid versions, tag forms, one-edit mutations, overflow, over-long
 	r.Phase("C: string helpers on a pool of valid/invalid texts (all ordered pairs)", func() {
-		pool := []string{"1.0.0+exp-sha.5114f85", "1.0.0+21AF26D3----117B344092BD", "v1.0.0+a-b", "1.0.0-rc+a-b", "1.0.0+-", "1.0.0-x-y+-z-", "v1.0.0--+--",
+		pool := []string{"1.0.0-alpha+001", "1.0.0+00", "v1.0.0+exp.01", "1.0.0+20130313.007", "1.0.0-0+0", "1.0.0-00+0", "1.0.0+exp-sha.5114f85", "1.0.0+21AF26D3----117B344092BD", "v1.0.0+a-b", "1.0.0-rc+a-b", "1.0.0+-", "1.0.0-x-y+-z-", "v1.0.0--+--",
 			"", "v", "1.2.3", "v1.2.3", "1.2.3-a01", "1.2.3-a1", "v1.2.3-rc.1+b", "1.2.3+b", "1.2", "1.2.3.4", "01.2.3", "1.2.3-01", "1.2.3-", "1.2.3+", "vv1.2.3", "V1.2.3", "1.2.3 ", "1.2.3-é",
 			"18446744073709551615.0.0", "18446744073709551616.0.0", "0.18446744073709551616.0", "v0.0.18446744073709551616", "0.0.0", "v0.0.0", "0.0.0-0", "0.0.0--", "2.0.0-beta.2", "2.0.0-beta.11", "v2.0.0-beta.11+x",
 			"1.0.0-" + strings.Repeat("a", 1017), "1.0.0-" + strings.Repeat("a", 1018), "1.0.0-" + strings.Repeat("a", 1019), "v1.0.0-" + strings.Repeat("1", 1016), "v1.0.0-" + strings.Repeat("1", 1017), "v1.0.0-" + strings.Repeat("1", 1018), "v1.0.0-" + strings.Repeat("a", 1017), "v1.0.0-" + strings.Repeat("a", 1018), "v1.0.0-" + strings.Repeat("a", 1019)}
